@@ -74,6 +74,9 @@ const P0M: &[&str] = &["p :- q.", "p :- q. s :- p.", "p :- t. t :- q. u :- not q
 /// a placeholder of sort general (declared with and without the sort), no assumption about it
 const UGG: &str = "input: q/1. input: g -> general. input: h. output: p/1.";
 const PG: &[&str] = &["p(X) :- q(X), X != g.", "p(X) :- q(X), X < g.", "p(g) :- q(g).", "p(X) :- q(X), not t(X). t(g).", "p(X) :- q(X), X != g, X != h.", "p(X) :- q(X), g != h."];
+/// symbolic constants that occur only inside comparison chains of user formulas
+const UG1C: &str = "input: q/1. output: p/1. assumption: forall X (q(X) -> a <= X <= c).";
+const P1C: &[&str] = &["p(X) :- q(X).", "p(X) :- q(X), X != b.", "p(X) :- q(X), X >= a.", "p(X) :- q(X), not t(X). t(X) :- q(X), X > c."];
 const UGN: &str = "input: q/1. input: n -> integer. output: p/1.";
 const UGC: &str = "input: q/1. input: c -> symbol. input: d -> general. output: p/1. assumption: c != d.";
 const PN: &[&str] = &[":- n < 1. p(X) :- q(X).", "p(X) :- q(X), n > 0.", ":- n != 1. p(X) :- q(X), X != n.", "p(X) :- q(X). :- 1 > n, n > -1.", "p(X) :- q(X), X != n.", "p(X) :- q(X), not t(X). t(n).", "p(X) :- q(X), X < n.", "p(X) :- q(X), X <= n, X != n.", "p(n) :- q(n).", "p(X) :- q(X), X > n - 1."];
@@ -122,6 +125,7 @@ const S1: &[&str] = &[
     "spec: forall X$i (p(X$i) -> q(X$i)).", "spec: forall X$s (p(X$s) <-> q(X$s)) or exists N$i (q(N$i) and N$i > 0).", "spec: forall X (p(X) -> exists N$i (X = N$i and q(N$i))).", "spec: exists X$s N$i (q(X$s) and q(N$i) and N$i < X$s) or forall X (p(X) <-> q(X)).",
     "spec: forall X (p(X) <-> q(X)) or exists X (q(X) <-> not p(X)).", "spec: exists X (p(X) <-> not q(X)).", "spec(backward): exists X (p(X) <-> not q(X)). spec(forward): forall X (p(X) -> q(X)).",
     "spec: exists X (q(X) <-> X = X).", "spec: forall X (p(X) <-> q(X)). spec: exists X (p(X) <-> X = X).",
+    "spec: forall X (p(X) -> q(X) and aa <= X <= cc).", "spec: forall X (p(X) <-> q(X)). spec(backward): forall X (p(X) -> bb != X != dd).", "spec: forall X (p(X) and 0 < X < zz -> q(X)).",
 ];
 
 /// pairs that must be present in every preset: a private predicate of the same name on both sides, defined on one side only
@@ -139,7 +143,7 @@ pub fn cases(deep: bool) -> Vec<(Case, Vec<&'static [&'static str]>)> {
     let mut out = Vec::new();
     let mut k = 0usize;
     let flags_for = |k: usize| -> Vec<&'static [&'static str]> { if deep { FLAGS.to_vec() } else { vec![FLAGS[0], FLAGS[1 + k % (FLAGS.len() - 1)], FLAGS[1 + (k / 2 + 3) % (FLAGS.len() - 1)]] } };
-    for (group, ug) in [(P0, UG0), (P0S, UG0S), (P0M, UG0M), (P1, UG1), (P1, UG1A), (PN, UGN), (PG, UGG), (PC, UGC), (P2, UG2), (PU, UGU), (PAB, UGAB)] {
+    for (group, ug) in [(P0, UG0), (P0S, UG0S), (P0M, UG0M), (P1, UG1), (P1, UG1A), (P1C, UG1C), (PN, UGN), (PG, UGG), (PC, UGC), (P2, UG2), (PU, UGU), (PAB, UGAB)] {
         let n = group.len();
         for i in 0..n {
             let js: Vec<usize> = if deep { (0..n).collect() } else { vec![(i + 1) % n, (i + 4) % n, (i + 9) % n] };
